@@ -8,6 +8,9 @@
                      loop { run_tick().await; A1: if !can_start_tick.swap(false) { break }; A2: yield_now().await }
      run_tick:       T1: had_external = can_start_tick.swap(false); T2: tick body; T3: can_start_tick.load()
      wake_by_ref:    WStore: can_start_tick.store(true);  WNotify: task_waker.wake()
+                     IN THIS ORDER: a WNotify step is only enabled for a waker that has done its
+                     WStore (`mid` counts the wakers between the two halves).  The opposite
+                     order (wstep_nf below) misses wake-ups: PWake.v notify_first_refuted.
 
    Every step is sequentially consistent (the code uses Ordering::Relaxed: reorderings on weakly
    ordered hardware are NOT modelled), AtomicWaker::register / wake are atomic steps, the tick
@@ -64,11 +67,38 @@ Definition wstep (s : wstate) (l : wlabel) : option (wstate * bool) :=
       end
   end.
 
+(* the same system with the two halves of wake_by_ref in the OPPOSITE order: task_waker.wake()
+   first (always enabled; `mid` now counts the wakers that have notified but not yet stored),
+   can_start_tick.store(true) second.  Data has arrived when wake_by_ref is entered. *)
+Definition wstep_nf (s : wstate) (l : wlabel) : option (wstate * bool) :=
+  match l with
+  | Runner => wstep s Runner
+  | WNotify =>
+      if reg s
+      then Some (mkW (w_pc s) (flag s) false true (S (mid s)) true, false)
+      else Some (mkW (w_pc s) (flag s) (reg s) (woken s) (S (mid s)) true, false)
+  | WStore =>
+      match mid s with
+      | O => None
+      | S m => Some (mkW (w_pc s) true (reg s) (woken s) m (owed s), false)
+      end
+  end.
+
 Definition winit : wstate := mkW A0 false false false 0 false.
 
 Inductive wreach : wstate -> Prop :=
 | wr_init : wreach winit
 | wr_step : forall s l s' t, wreach s -> wstep s l = Some (s', t) -> wreach s'.
+
+Inductive wreach_nf : wstate -> Prop :=
+| wrn_init : wreach_nf winit
+| wrn_step : forall s l s' t, wreach_nf s -> wstep_nf s l = Some (s', t) -> wreach_nf s'.
+
+Fixpoint wrun_nf (s : wstate) (tr : list wlabel) : option wstate :=
+  match tr with
+  | [] => Some s
+  | l :: tr' => match wstep_nf s l with Some (s', _) => wrun_nf s' tr' | None => None end
+  end.
 
 (* the runner is stuck: parked, not woken, and no notification is on its way *)
 Definition stuck (s : wstate) : bool :=
